@@ -106,6 +106,12 @@ func flushAll() {
 
 func TestMain(m *testing.M) {
 	flag.Parse()
+	if canaryMode {
+		if err := canary(); err != nil {
+			fmt.Println("HARNESS-BUG: the canary fails before any case has run:", err)
+			os.Exit(4)
+		}
+	}
 	code := m.Run()
 	flushAll()
 	os.Exit(code)
@@ -180,7 +186,18 @@ type replayFile struct {
 	Kind     string          `json:"kind"`
 	Msg      string          `json:"msg"`
 	Case     json.RawMessage `json:"case"`
+	// Canary: after the case has run, the process-state canary (canary_test.go) must still pass: the case is kept
+	// because it leaves package-level state behind that breaks later calls on fresh objects.
+	Canary bool `json:"canary,omitempty"`
 }
+
+// canaryMode: run the process-state canary after every case. Set by VERIF_CANARY=1 (the driver's "pollution hunt": a
+// failure that does not reproduce from its own case is usually caused by an EARLIER case of the same process that left
+// package-level state behind; the shard is run again with the canary, which pins the first case after which fresh
+// objects misbehave) and while a replay file with "canary": true is replayed.
+var canaryMode = os.Getenv("VERIF_CANARY") == "1"
+
+const pollutionPrefix = "POLLUTION: "
 
 var replayers = map[string]func(raw json.RawMessage) error{}
 
@@ -204,7 +221,13 @@ func register[C any](prop, kind string, check func(C) error) func(tb fataler, c 
 		// becomes a breadcrumb + exit 3, which the driver replays alone, instead of a wall-clock timeout of the run
 		stop := caseWatchdog(prop, kind, c)
 		defer stop()
-		return check(c)
+		if err := check(c); err != nil || !canaryMode {
+			return err
+		}
+		if cerr := canary(); cerr != nil {
+			return fmt.Errorf(pollutionPrefix+"the case itself passed, but after it the same calls on fresh objects no longer behave as they did when the process started (package-level state was left behind): %v", cerr)
+		}
+		return nil
 	}
 	replayers[key] = func(raw json.RawMessage) error {
 		var c C
@@ -217,6 +240,13 @@ func register[C any](prop, kind string, check func(C) error) func(tb fataler, c 
 		tb.Helper()
 		if err := safe(c); err != nil {
 			saveFailure(prop, kind, c, err)
+			if canaryMode && envOut != "" {
+				// pollution hunt: the first failing case is the answer; shrinking would run in an already polluted
+				// process, where every case fails
+				fmt.Fprintf(os.Stderr, "%s/%s: %v\n", prop, kind, err)
+				flushAll()
+				os.Exit(1)
+			}
 			tb.Fatalf("%s/%s: %v", prop, kind, err)
 		}
 	}
@@ -243,7 +273,7 @@ func saveFailure(prop, kind string, c interface{}, err error) {
 		return
 	}
 	raw, _ := json.Marshal(c)
-	b, _ := json.MarshalIndent(replayFile{Property: prop, Kind: kind, Msg: err.Error(), Case: raw}, "", " ")
+	b, _ := json.MarshalIndent(replayFile{Property: prop, Kind: kind, Msg: err.Error(), Case: raw, Canary: strings.HasPrefix(err.Error(), pollutionPrefix)}, "", " ")
 	_ = os.WriteFile(p, b, 0o644)
 }
 
@@ -411,6 +441,13 @@ func replayOne(path string) error {
 	}
 	stop := watchdog(120*time.Second, "replay "+path)
 	defer stop()
+	if rf.Canary {
+		if err := canary(); err != nil {
+			return bugf("the canary fails in a fresh process: %v", err)
+		}
+		canaryMode = true
+		defer func() { canaryMode = false }()
+	}
 	return fn(rf.Case)
 }
 
